@@ -49,21 +49,29 @@ OBLIGATIONS = {
     'O3.2a': {'engine': 'B', 'title': 'a table compaction is bounded by the oldest live snapshot', 'run': compaction.o3_2a_smallest_snapshot, 'confirm': compaction.scenario_confirm},
     'O3.2b': {'engine': 'B', 'title': 'compaction keep/drop rule preserves what every live snapshot and the latest state see', 'run': compaction.o3_2b_keep_drop, 'confirm': compaction.scenario_confirm},
     'O8.3': {'engine': 'B', 'title': 'the leader of a write reports a failed make_room / WAL append and records the failed state', 'run': dbpaths.o8_3_apply_changes, 'confirm': dbpaths.o8_3_confirm},
-    'O6.1': {'engine': 'B', 'title': 'a batch gets prev+1.. and the new sequence is published under the mutex only after the memtable insert', 'run': dbpaths.o6_1_sequence_publication},
+    'O6.1': {'engine': 'B', 'title': 'a batch gets prev+1.. and the new sequence is published under the mutex only after the memtable insert', 'run': dbpaths.o6_1_sequence_publication, 'confirm': dbpaths.o6_1_confirm},
     'O5.1': {'engine': 'B', 'title': 'get / new_iterator capture memtable, immutable memtable, version and sequence while holding the mutex', 'run': dbpaths.o5_1_reads_under_mutex, 'confirm': dbpaths.o5_1_confirm},
     'O9.1': {'engine': 'B', 'title': 'no public method re-locks the non-reentrant database mutex on a path that holds it', 'run': dbpaths.o9_1_no_self_deadlock, 'confirm': dbpaths.o9_1_confirm},
 }
+# Engine A obligations (Kani harnesses in /verif/harness/src/proofs.rs; runner in /verif/kani/runner.py)
+import importlib.util as _u, os as _os
+_spec = _u.spec_from_file_location('kani_runner_meta', _os.path.join(_os.path.dirname(_os.path.dirname(_os.path.abspath(__file__))), 'kani', 'runner.py'))
+_kr = _u.module_from_spec(_spec); _spec.loader.exec_module(_kr)
+for _n, (_title, _hs) in _kr.OBLIGATIONS.items():
+    OBLIGATIONS[_n] = {'engine': 'A', 'title': _title, 'harnesses': [h for h, _ in _hs]}
 
 PROPERTIES = {
     'C07': {'obligations': ['O7.1', 'O7.2', 'O7.3', 'O7.4a', 'O7.4b', 'O7.4c', 'O3.2a', 'O3.2b']},
-    'C01': {'obligations': ['O1.3', 'O1.4', 'O1.6', 'O1.7']},
+    'C01': {'obligations': ['O1.1', 'O1.3', 'O1.4', 'O1.6', 'O1.7']},
     'C08': {'obligations': ['O8.2', 'O8.3']},
     'C05': {'obligations': ['O5.1', 'O6.1']},
-    'C06': {'obligations': ['O6.1']},
+    'C06': {'obligations': ['O6.1', 'O5.1']},
     'C09': {'obligations': ['O9.1']},
-    'C12': {'obligations': ['O12.1', 'O12.3', 'O12.4']},
+    'C12': {'obligations': ['O12.1', 'O12.3', 'O12.4', 'O12.2']},
+    'C13': {'obligations': ['O1.6', 'O13.1', 'O13.2', 'O1.1']},
+    'C14': {'obligations': ['O14.1']},
     'C02': {'obligations': ['O12.3']},
-    'C15': {'obligations': ['O15.5']},
+    'C15': {'obligations': ['O15.5', 'O15.1', 'O15.2', 'O15.3']},
     'C16': {'obligations': ['O12.3', 'O16.2']},
     'C03': {'obligations': ['O1.6', 'O3.2a', 'O3.2b']},
     'C04': {'obligations': ['O4.1']},
